@@ -2575,7 +2575,11 @@ func (r Stack) Defrag(max ...int) Stack {
 			// recurse through stack, and defrag any other suitable
 			// candidates for the operation. Targets are any Stack
 			// or Condition instances, OR their aliased equivalents.
-			if r.IsNesting() {
+			//
+			// Note that IsNesting alone is not a sufficient test: a
+			// Condition may hold a Stack even though no slice of the
+			// receiver is a Stack itself.
+			if r.Len() > 0 {
 				for i := 0; i < r.Len(); i++ {
 					slice, _ := r.Index(i)
 					if sub, ok := stackTypeAliasConverter(slice); ok {
